@@ -171,16 +171,17 @@ pub struct TimelineBuilderArguments<Data: Clone + Debug> {
 }
 
 impl<Data: Clone + Debug> From<TimelineConfiguration<Data>> for TimelineBuilderArguments<Data> {
-    fn from(value: TimelineConfiguration<Data>) -> Self {
-        let mut args = Self {
+    fn from(mut value: TimelineConfiguration<Data>) -> Self {
+        // Sort first: the boundary times are binary-searched and index into the sorted keyframes.
+        value
+            .keyframes
+            .sort_by(|a, b| a.normalized_time.total_cmp(&b.normalized_time));
+        Self {
             timescale: value.create_timescale(),
             boundary_times: value.get_boundary_times(),
             default_easing: value.default_easing,
             keyframes: value.keyframes,
-        };
-        args.keyframes
-            .sort_by(|a, b| a.normalized_time.total_cmp(&b.normalized_time));
-        args
+        }
     }
 }
 
